@@ -66,6 +66,9 @@ type Contract struct {
 	// Implements: "Iface.Method" — the method is verified against that interface method's (otherwise assumed)
 	// contract as well: its requires are added to this contract's, its ensures become obligations
 	// (conform-<label>) and its modifies are added to the frame.
+	// NoRead: fields ("Type.field") the function's code must not read, directly or through helpers that are
+	// expanded in place: process-local state that a DAG-determined result must not depend on.
+	NoRead []string
 	Implements string
 	// GhostSets: ghost assignments executed at the function's exit, before the postconditions are checked
 	// (`ghostset G_f(x) := e [when c]`): the way an implementation maintains the ghost view its interface is
@@ -105,7 +108,7 @@ type MemoDecl struct {
 	Line              string
 }
 
-var clauseKW = map[string]bool{"implements": true, "ghostset": true, "ints": true, "safety": true, "requires": true, "assume": true, "ensures": true, "aux": true, "modifies": true,
+var clauseKW = map[string]bool{"noread": true, "implements": true, "ghostset": true, "ints": true, "safety": true, "requires": true, "assume": true, "ensures": true, "aux": true, "modifies": true,
 	"loop": true, "call": true, "callback": true, "reveal": true, "opaque": true, "trusted": true, "inline": true, "pure": true, "float": true}
 
 var reHead = regexp.MustCompile(`^(requires|assume|ensures|aux|invariant|assert|decreases)(\[[^\]]+\])?\s*(.*)$`)
@@ -259,6 +262,12 @@ func parseClause(c *Contract, text, loc string) error {
 			return fmt.Errorf("%s: ints ideal|checked|wrap", loc)
 		}
 		c.IntMode = fields[1]
+	case "noread":
+		for _, d := range splitTopLevel(strings.TrimSpace(strings.TrimPrefix(text, "noread")), ',') {
+			if d = strings.TrimSpace(d); d != "" {
+				c.NoRead = append(c.NoRead, d)
+			}
+		}
 	case "implements":
 		if len(fields) != 2 {
 			return fmt.Errorf("%s: implements Iface.Method", loc)
@@ -816,7 +825,13 @@ func (pc *PkgContracts) expandImplements() error {
 			}, b)
 		}
 		derive := func(cl *Clause, kind, prefix string) *Clause {
-			return &Clause{Kind: kind, Label: prefix + cl.Label, Src: cl.Src, Expr: renExpr(cl.Expr), Line: cl.Line}
+			// a fresh syntax tree (parsed again from the clause text): type information is recorded per node, and
+			// the derived clause is checked in another scope than the interface contract's own clause
+			fresh, err := parser.ParseExpr(cl.Src)
+			if err != nil {
+				fresh = cl.Expr
+			}
+			return &Clause{Kind: kind, Label: prefix + cl.Label, Src: cl.Src, Expr: renExpr(fresh), Line: cl.Line}
 		}
 		for _, r := range ic.Requires {
 			c.Requires = append(c.Requires, derive(r, "requires", "iface-"))
